@@ -53,10 +53,10 @@ PROPS["C02"] = {
     "level": "model_checking",
     "harness": ["C02_"],
     "tiers": {
-        "quick": {"timeout": "20s", "maxsteps": 8000000, "casecap": 1100, "bounds": "encoding lemmas: all 42 opcodes x full operand ranges (8/16/32 bit); VM decoders: 4 jump opcodes x all 2^32 targets, OpConstant/OpGetGlobal/OpSetGlobal/OpGetLocal x full index range; monitor: 44 catalog programs, int inputs a,b (full int64, or -1..3 where they bound a loop), bool c", "cross": 1},
-        "thorough": {"timeout": "60s", "maxsteps": 8000000, "casecap": 1100, "bounds": "as quick (the catalog and operand ranges are the bound)", "cross": 2},
+        "quick": {"timeout": "20s", "maxsteps": 8000000, "casecap": 1100, "bounds": "encoding lemmas: all 42 opcodes x full operand ranges (8/16/32 bit); VM decoders: 4 jump opcodes x all 2^32 targets, OpConstant/OpGetGlobal/OpSetGlobal/OpGetLocal x full index range; monitor: 44 catalog programs, int inputs a,b (full int64, or -1..3 where they bound a loop), bool c. Generated grammar family (gen.go): every statement sequence of <= 2 nodes from 10 atoms (r += x, x = y + 1, y++, m.k += x, block-scoped declaration, immediately-invoked closure reading a captured variable, closure writing a captured variable, break, continue, return) and 8 wrappers (if, if-else, if with init, 3-clause for, for-in, condition-only for, endless for with break, function literal + call), plus every nesting W(W'(atom)), rendered in 4 variable-placement contexts (top level: globals; function body: parameters/locals; closure: captured parameter/locals; loop inside a function) - 1029 programs, inputs a, b full int64 and c bool symbolic: static verifier + VM monitor on each", "cross": 1},
+        "thorough": {"timeout": "60s", "maxsteps": 8000000, "casecap": 1100, "bounds": "as quick (the catalog and operand ranges are the bound). Generated grammar family (gen.go): every statement sequence of <= 3 nodes (10 atoms, 8 wrappers) in 4 variable-placement contexts - 9262 programs, inputs a, b full int64 and c bool symbolic: static verifier + VM monitor on each", "cross": 2},
     },
-    "reach": {"C02_Encoding": ["enc"], "C02_DecodeJump": ["decjump"], "C02_DecodeIndex": ["decidx"], "C02_Monitor": ["monitor"]},
+    "reach": {"C02_GenMonitor": ["genmonitor"], "C02_Encoding": ["enc"], "C02_DecodeJump": ["decjump"], "C02_DecodeIndex": ["decidx"], "C02_Monitor": ["monitor"]},
     "assumptions": [
         "the static well-formedness pass (jump targets, operand ranges, one operand-stack height per instruction, every path ends in a return) is an ordinary Go function run by the engine on each compiled program: it has no symbolic input; the solver decides the encoding lemmas, the VM decoders and the dynamic monitor over all inputs",
         "stack effect of OpCall is taken as -(numArgs) also for spread calls (the VM replaces callee and arguments by one result)",
@@ -69,10 +69,10 @@ PROPS["C03"] = {
     "level": "translation_validation",
     "harness": ["C03_"],
     "tiers": {
-        "quick": {"timeout": "20s", "maxsteps": 8000000, "bounds": "twin compile (with / without dead-code elimination) of 12 dead-code programs + 44 catalog + 9 failing programs, inputs a,b int64 (or -1..3 where they bound loops), c bool: identical globals, identical error text incl. positions; optimizer lemma on arbitrary streams of 2..3 instructions from {TRUE,POP,RET 0/1,JMP,JMPF,ANDJMP,ORJMP,GETL} with jump targets case-split over every instruction boundary and the end", "cross": 1},
-        "thorough": {"timeout": "60s", "maxsteps": 8000000, "bounds": "as quick; optimizer lemma on streams of 2..5 instructions", "cross": 2},
+        "quick": {"timeout": "20s", "maxsteps": 8000000, "bounds": "twin compile (with / without dead-code elimination) of 12 dead-code programs + 44 catalog + 9 failing programs, inputs a,b int64 (or -1..3 where they bound loops), c bool: identical globals, identical error text incl. positions; optimizer lemma on arbitrary streams of 2..3 instructions from {TRUE,POP,RET 0/1,JMP,JMPF,ANDJMP,ORJMP,GETL} with jump targets case-split over every instruction boundary and the end. Generated grammar family (gen.go): every statement sequence of <= 2 nodes from 10 atoms (r += x, x = y + 1, y++, m.k += x, block-scoped declaration, immediately-invoked closure reading a captured variable, closure writing a captured variable, break, continue, return) and 8 wrappers (if, if-else, if with init, 3-clause for, for-in, condition-only for, endless for with break, function literal + call), plus every nesting W(W'(atom)), rendered in 4 variable-placement contexts (top level: globals; function body: parameters/locals; closure: captured parameter/locals; loop inside a function) - 1029 programs, inputs a, b full int64 and c bool symbolic: twin compile of each", "cross": 1},
+        "thorough": {"timeout": "60s", "maxsteps": 8000000, "bounds": "as quick; optimizer lemma on streams of 2..5 instructions. Generated grammar family (gen.go): every statement sequence of <= 3 nodes (10 atoms, 8 wrappers) in 4 variable-placement contexts - 9262 programs, inputs a, b full int64 and c bool symbolic: twin compile of each", "cross": 2},
     },
-    "reach": {"C03_TwinDead": ["twin"], "C03_TwinCatalog": ["twincat"], "C03_Lemma": ["lemma"]},
+    "reach": {"C03_TwinGen": ["twingen"], "C03_TwinDead": ["twin"], "C03_TwinCatalog": ["twincat"], "C03_Lemma": ["lemma"]},
     "assumptions": [
         "the unoptimized twin is produced by an overlay of compiler.go generated from the current file (optimizeFunc renamed, a switch added that only appends the trailing return); if the anchor is missing the check reports itself broken",
         "in the lemma, jump targets are finite-domain choices, not wide variables: it is an exhaustive case split within the stream-length bound",
@@ -139,10 +139,10 @@ PROPS["C01"] = {
     "level": "model_checking",
     "harness": ["C01_"],
     "tiers": {
-        "quick": {"timeout": "20s", "maxsteps": 12000000, "bounds": "out := a OP b for 19 binary operators x U(0,2) x 8-shape lite universe; 4 unary operators x U(1,2); 10 index/slice/selector read+write programs x U(1,2) with symbolic int (or lite) indices; 31 builtins x 0..2 arguments (3 for splice, range); 44 catalog + 9 failing programs with symbolic int/bool inputs; every run compared with the reference evaluator refsem (outcome class and every global)", "cross": 1},
-        "thorough": {"timeout": "60s", "maxsteps": 12000000, "bounds": "as quick with U(.,3)", "cross": 2},
+        "quick": {"timeout": "20s", "maxsteps": 12000000, "bounds": "out := a OP b for 19 binary operators x U(0,2) x 8-shape lite universe; 4 unary operators x U(1,2); 10 index/slice/selector read+write programs x U(1,2) with symbolic int (or lite) indices; 31 builtins x 0..2 arguments (3 for splice, range); 44 catalog + 9 failing programs with symbolic int/bool inputs; every run compared with the reference evaluator refsem (outcome class and every global). Generated grammar family (gen.go): every statement sequence of <= 2 nodes from 10 atoms (r += x, x = y + 1, y++, m.k += x, block-scoped declaration, immediately-invoked closure reading a captured variable, closure writing a captured variable, break, continue, return) and 8 wrappers (if, if-else, if with init, 3-clause for, for-in, condition-only for, endless for with break, function literal + call), plus every nesting W(W'(atom)), rendered in 4 variable-placement contexts (top level: globals; function body: parameters/locals; closure: captured parameter/locals; loop inside a function) - 1029 programs, inputs a, b full int64 and c bool symbolic, each compared with the reference evaluator", "cross": 1},
+        "thorough": {"timeout": "60s", "maxsteps": 12000000, "bounds": "as quick with U(.,3). Generated grammar family (gen.go): every statement sequence of <= 3 nodes (10 atoms, 8 wrappers) in 4 variable-placement contexts - 9262 programs, inputs a, b full int64 and c bool symbolic, each compared with the reference evaluator", "cross": 2},
     },
-    "reach": {"C01_BinaryOps": ["binops"], "C01_UnaryOps": ["unops"], "C01_Indexing": ["indexing"], "C01_Builtins": ["builtins"], "C01_Catalog": ["catalog"]},
+    "reach": {"C01_Gen": ["gen"], "C01_BinaryOps": ["binops"], "C01_UnaryOps": ["unops"], "C01_Indexing": ["indexing"], "C01_Builtins": ["builtins"], "C01_Catalog": ["catalog"]},
     "assumptions": [
         "oracle: package refsem (harness/refsem), an AST-walking evaluator written from docs/*.md (see refsem/NOTES.md for every decision where the documents are silent or inconsistent); it is validated natively against the real implementation on 1489 programs + operator/builtin matrices (go test ./refsem/) and is itself executed symbolically here",
         "the right operand of * / % comes from a boundary set (symbolic-by-symbolic 64-bit multiply/divide stalls every solver back end); values that get rendered as decimal text (string + x, string(x), map index) come from boundary sets",
@@ -173,10 +173,10 @@ PROPS["C11"] = {
     "level": "model_checking",
     "harness": ["C11_"],
     "tiers": {
-        "quick": {"timeout": "20s", "maxsteps": 12000000, "bounds": "20 scope programs (copied closures, a block-scoped variable captured by a closure that outlives the block followed by for-in loops re-using its slot, compound assignment, ++/--, selector assignment through global/local/free variables, closures, shadowing, loops, variadics, recursion, failing operations) x {function body, module function, consistent renaming, each marked sub-expression wrapped in an immediately-invoked function literal}; inputs a, b int64 (or -1..3 where they bound loops/recursion), c bool", "cross": 2},
-        "thorough": {"timeout": "60s", "maxsteps": 12000000, "bounds": "as quick", "cross": 3},
+        "quick": {"timeout": "20s", "maxsteps": 12000000, "bounds": "20 scope programs (copied closures, a block-scoped variable captured by a closure that outlives the block followed by for-in loops re-using its slot, compound assignment, ++/--, selector assignment through global/local/free variables, closures, shadowing, loops, variadics, recursion, failing operations) x {function body, module function, consistent renaming, each marked sub-expression wrapped in an immediately-invoked function literal}; inputs a, b int64 (or -1..3 where they bound loops/recursion), c bool. Generated grammar family (gen.go): the 542 bodies of <= 2 nodes (and nestings W(W'(atom))) without top-level break/continue/return, each at top level vs inside a function body, inside a closure (captured parameter and locals) and inside a module function", "cross": 2},
+        "thorough": {"timeout": "60s", "maxsteps": 12000000, "bounds": "as quick. Generated grammar family: the 1893 relocatable bodies of <= 3 nodes, same four placements", "cross": 3},
     },
-    "reach": {"C11_Relocate": ["relocate"]},
+    "reach": {"C11_GenRelocate": ["genrelocate"], "C11_Relocate": ["relocate"]},
     "assumptions": ["transformations are applied to marked program templates by text substitution in the harness; programs in which a closure outlives the loop iteration that declared a captured variable (the documented scope-dependent case) are not in the list",
                     "failing programs are compared by error class, not by position text (positions legitimately move)"],
     "outside": "programs and transformations beyond the list",
@@ -187,10 +187,10 @@ PROPS["C12"] = {
     "level": "translation_validation",
     "harness": ["C12_"],
     "tiers": {
-        "quick": {"timeout": "20s", "maxsteps": 12000000, "bounds": "11 constant-heavy programs (source modules imported twice, nested functions, two builtin modules math/text, two object modules without __module_name__ holding bools/undefined/arrays/maps/errors/bytes, a failing program with a multi-line position) + 44 catalog + 9 failing programs compiled with the raw Compiler API. De-duplication: run before and after the real RemoveDuplicates on the same symbolic inputs a, b (int64), c (bool); globals, error text and positions compared; pool soundness checked. Write/read-back: the same programs, with and without de-duplication first, run before and after the codec; pools of 2..4 constants with symbolic int/float/char/string values", "cross": 2},
-        "thorough": {"timeout": "60s", "maxsteps": 12000000, "bounds": "as quick", "cross": 3},
+        "quick": {"timeout": "20s", "maxsteps": 12000000, "bounds": "11 constant-heavy programs (source modules imported twice, nested functions, two builtin modules math/text, two object modules without __module_name__ holding bools/undefined/arrays/maps/errors/bytes, a failing program with a multi-line position) + 44 catalog + 9 failing programs compiled with the raw Compiler API. De-duplication: run before and after the real RemoveDuplicates on the same symbolic inputs a, b (int64), c (bool); globals, error text and positions compared; pool soundness checked. Write/read-back: the same programs, with and without de-duplication first, run before and after the codec; pools of 2..4 constants with symbolic int/float/char/string values. Generated grammar family (gen.go): every statement sequence of <= 2 nodes from 10 atoms (r += x, x = y + 1, y++, m.k += x, block-scoped declaration, immediately-invoked closure reading a captured variable, closure writing a captured variable, break, continue, return) and 8 wrappers (if, if-else, if with init, 3-clause for, for-in, condition-only for, endless for with break, function literal + call), plus every nesting W(W'(atom)), rendered in 4 variable-placement contexts (top level: globals; function body: parameters/locals; closure: captured parameter/locals; loop inside a function) - 1029 programs, inputs a, b full int64 and c bool symbolic: compile, run; RemoveDuplicates, run; write out/read back, run", "cross": 2},
+        "thorough": {"timeout": "60s", "maxsteps": 12000000, "bounds": "as quick. Generated grammar family (gen.go): every statement sequence of <= 3 nodes (10 atoms, 8 wrappers) in 4 variable-placement contexts - 9262 programs, inputs a, b full int64 and c bool symbolic: compile, run; RemoveDuplicates, run; write out/read back, run", "cross": 3},
     },
-    "reach": {"C12_WriteRead": ["writeread"], "C12_Dedup": ["dedup"], "C12_SymbolicPool": ["pool"]},
+    "reach": {"C12_Gen": ["gen"], "C12_WriteRead": ["writeread"], "C12_Dedup": ["dedup"], "C12_SymbolicPool": ["pool"]},
     "assumptions": [
         "encoding/gob is reflection-driven and cannot be executed by the engine: in the engine the codec is a MODEL (harness/c12.go gobModel: structurally equal value, every pointer fresh so the true/false/undefined singletons are lost, func fields dropped, empty slices and maps nil, SourceFile.set unset) followed by the REAL fixDecodedObject; the native replay of every counterexample and of sampled passing paths uses the real Bytecode.Encode/Decode, which is what validates the model",
         "constants are the kinds the compiler and RemoveDuplicates accept at top level (int, float, char, string, compiled function, immutable map); RemoveDuplicates panics by design on any other top-level constant type",
@@ -218,10 +218,10 @@ PROPS["C14"] = {
     "level": "model_checking",
     "harness": ["C14_"],
     "tiers": {
-        "quick": {"timeout": "20s", "maxsteps": 40000000, "bounds": "systematic placement of the failing statement (C14_Marked): 7 failing forms x {main, function, module body, module function} x {at byte 0, after a lead statement} x 4 dead-code prefixes x 4 tails (no return / return / return + dead code) x {1, 2 modules} x {run once, twice}, expected file and line computed from a marker; 4 multi-line programs (flat, calls nested 3 deep, dead code after returns/continues that shifts instruction offsets, loop + closure) where a symbolic input selects the failing operation; a module program; 6 sentinel/host-error cases; through Run and RunContext", "cross": 2},
-        "thorough": {"timeout": "60s", "maxsteps": 40000000, "bounds": "as quick", "cross": 3},
+        "quick": {"timeout": "20s", "maxsteps": 40000000, "bounds": "systematic placement of the failing statement (C14_Marked): 7 failing forms x {main, function, module body, module function} x {at byte 0, after a lead statement} x 4 dead-code prefixes x 4 tails (no return / return / return + dead code) x {1, 2 modules} x {run once, twice}, expected file and line computed from a marker; 4 multi-line programs (flat, calls nested 3 deep, dead code after returns/continues that shifts instruction offsets, loop + closure) where a symbolic input selects the failing operation; a module program; 6 sentinel/host-error cases; through Run and RunContext. Generated failing programs (gen.go): one statement per line, one failing statement (int + undefined) substituted at every atom position of every sequence of <= 2 nodes and every nesting W(W'(fail)), 4 contexts - 294 programs; whenever the run fails the whole trace (failing line, then the call line of each enclosing function literal and context function, innermost first) must equal the lines computed from the construction", "cross": 2},
+        "thorough": {"timeout": "60s", "maxsteps": 40000000, "bounds": "as quick. Generated failing programs: sequences of <= 3 nodes - 1840 programs", "cross": 3},
     },
-    "reach": {"C14_Positions": ["positions"], "C14_Module": ["module"], "C14_Unwrap": ["unwrap"], "C14_Marked": ["marked"]},
+    "reach": {"C14_Gen": ["gen", "gen-nofail"], "C14_Positions": ["positions"], "C14_Module": ["module"], "C14_Unwrap": ["unwrap"], "C14_Marked": ["marked"]},
     "assumptions": ["locations are compared by file and line (one statement per line in the programs); columns and message wording are not compared",
                     "Go runtime panics converted by RunContext (e.g. 1/0) carry no location and are not in the list"],
     "outside": "programs beyond the list; column accuracy",
@@ -245,10 +245,10 @@ PROPS["C07"] = {
     "level": "model_checking",
     "harness": ["C07_"],
     "tiers": {
-        "quick": {"timeout": "20s", "maxsteps": 12000000, "bounds": "5 programs (counting loop, unbounded self tail call, nested calls, straight-line, builtin-heavy; each terminating and, where possible, running forever) x cancellation instant {before the run starts, at VM poll k for k in 0..7, never} x delay {immediately, 1 poll} before the waiting goroutine is scheduled x goroutine start order; followed by a second RunContext on the same Compiled; the loop bound of the second run is a symbolic input in 0..2", "cross": 0},
+        "quick": {"timeout": "20s", "maxsteps": 12000000, "bounds": "5 programs (counting loop, unbounded self tail call, nested calls, straight-line, builtin-heavy; each terminating and, where possible, running forever) x cancellation instant {before the run starts, at VM poll k for k in 0..7, never} x delay {immediately, 1 poll} before the waiting goroutine is scheduled x goroutine start order; followed by a second RunContext on the same Compiled; the loop bound of the second run is a symbolic input in 0..2; cancellation before or during a host function call that outlasts 1..3 hand-offs to the waiting goroutine (timers, if any, may fire at any scheduling point)", "cross": 0},
         "thorough": {"timeout": "60s", "maxsteps": 12000000, "bounds": "as quick with k in 0..59 and delays up to 2 polls", "cross": 0},
     },
-    "reach": {"C07_Cancel": ["cancel"]},
+    "reach": {"C07_Cancel": ["cancel"], "C07_HostCall": ["hostcall"]},
     "assumptions": [
         "schedules are explored by a cooperative scheduler: control changes hands only at channel operations, select, mutex operations and where the harness hands off; the VM polls its abort flag once per instruction and the cancellation instant is the poll index",
         "'bounded delay' is claimed as 'no VM instruction is dispatched after the VM observed the abort flag, and RunContext returns once the waiting goroutine has been scheduled (at most 2 polls after the cancellation)', not in wall-clock time",
